@@ -451,7 +451,11 @@ class TxSendWait:
                 # accounting in millibytes
                 need = 1000 * len(pri_dgram)
                 # let the sender do any buffering
-                pri_item.sender(pri_dgram)
+                try:
+                    pri_item.sender(pri_dgram)
+                except OSError as err:
+                    LOGGER.error('Failed to send datagram: %s', err)
+                    break
                 self.tok_avail -= need
 
         while True:
@@ -484,7 +488,19 @@ class TxSendWait:
                 return True
 
             # let the sender do any buffering
-            self.cur_item.sender(self.cur_dgram)
+            try:
+                self.cur_item.sender(self.cur_dgram)
+            except OSError as err:
+                # This item cannot be sent, the ones behind it may well be
+                LOGGER.error('Failed to send datagram: %s', err)
+                self.agent.send_bundle_finished(
+                    str(self.cur_item.item.transfer_id),
+                    self.cur_item.item.total_length,
+                    'failed'
+                )
+                self.cur_item = None
+                self.cur_dgram = None
+                continue
             self.tok_avail -= need
 
             self.cur_dgram = None
